@@ -531,3 +531,75 @@ proof fn lemma_trunc_bits(p: nat, m: nat, w: nat, k: nat)
 {
     lemma_mod_bit(p, w, k); lemma_mod_bit(m, w, k);
 }
+
+// ---- power -------------------------------------------------------------------------------------------------------------
+proof fn lemma_pow_neg(a: int, e: nat)
+    ensures pow(-a, e) == (if e % 2 == 1 { -pow(a, e) } else { pow(a, e) })
+    decreases e
+{
+    reveal(pow);
+    if e > 0 {
+        lemma_pow_neg(a, (e - 1) as nat);
+        let x = pow(a, (e - 1) as nat);
+        assert((-a) * (-x) == a * x) by (nonlinear_arith);
+        assert((-a) * x == -(a * x)) by (nonlinear_arith);
+    }
+}
+
+proof fn lemma_pow_nonneg(a: int, e: nat)
+    requires a >= 0
+    ensures pow(a, e) >= 0
+    decreases e
+{
+    reveal(pow);
+    if e > 0 {
+        lemma_pow_nonneg(a, (e - 1) as nat);
+        assert(a * pow(a, (e - 1) as nat) >= 0) by (nonlinear_arith) requires a >= 0, pow(a, (e - 1) as nat) >= 0;
+    }
+}
+
+/// pow_mod_width: r0 = mag^e mod m; the code returns r0, or (m - r0) mod m for an odd power of a negative base
+proof fn lemma_pow_width(a: int, e: nat, m: int)
+    requires a >= 0, m > 0
+    ensures 0 <= pow(a, e) % m < m,
+            pow(a, e) % m != 0 ==> (m - pow(a, e) % m) % m == (-pow(a, e)) % m && 0 <= (m - pow(a, e) % m) % m < m,
+            pow(a, e) % m == 0 ==> (-pow(a, e)) % m == 0,
+{
+    let p = pow(a, e);
+    lemma_pow_nonneg(a, e);
+    lemma_mod_bound(p, m);
+    lemma_fundamental_div_mod(p, m);
+    let r0 = p % m;
+    let q = p / m;
+    if r0 != 0 {
+        lemma_small_mod((m - r0) as nat, m as nat);
+        assert((m - r0) + (-(q + 1)) * m == -p) by (nonlinear_arith) requires p == m * q + r0;
+        lemma_mod_unique(m - r0, -p, -(q + 1), m);
+    } else {
+        assert(0 + (-q) * m == -p) by (nonlinear_arith) requires p == m * q + r0, r0 == 0;
+        lemma_mod_unique(0, -p, -q, m);
+    }
+}
+
+/// ValueU64::to_i64: `(payload | !mask) as i64` is the two's complement value
+proof fn lemma_to_i64(p: u64, w: u64, mask: u64)
+    requires 1 <= w <= 64, (p as nat) < pow2(w as nat), mask as nat == low(w as nat)
+    ensures bit(p as nat, (w - 1) as nat) ==> ((p | !mask) as i64) as int == p as int - pow2(w as nat),
+            !bit(p as nat, (w - 1) as nat) ==> (p as i64) as int == p as int && (p as nat) < pow2((w - 1) as nat),
+            (((p >> ((w - 1) as u64)) & 1) == 1) == bit(p as nat, (w - 1) as nat)
+{
+    lemma_u64_mask(w as nat);
+    lemma_pow2_small();
+    lemma_u64_bit(p, (w - 1) as u64);
+    lemma_msb(p as nat, w as nat);
+    lemma_pow2_step((w - 1) as nat);
+    lemma_pow2_le((w - 1) as nat, 63);
+    lemma2_to64_rest();
+    if bit(p as nat, (w - 1) as nat) {
+        let t = p | !mask;
+        assert(t == p + (0xffff_ffff_ffff_ffffu64 - mask) && t >= 0x8000_0000_0000_0000u64) by (bit_vector)
+            requires t == p | !mask, 1 <= w, w <= 64, (w < 64 ==> mask == ((1u64 << w) - 1) as u64), (w == 64 ==> mask == 0xffff_ffff_ffff_ffffu64), p <= mask,
+                     (p >> ((w - 1) as u64)) & 1 == 1;
+        assert((t as i64) == t - 0x1_0000_0000_0000_0000) by (bit_vector) requires t >= 0x8000_0000_0000_0000u64;
+    }
+}
